@@ -132,6 +132,40 @@ pub trait TypeOps {
     fn ser_script(&self, i: usize, w: &mut ScriptWriter) -> Out<usize>;
     fn full_script(&self, rd: &mut ScriptReader) -> Out<Val>;
     fn ser_schema(&self, i: usize) -> Out<SchemaOut>;
+    /// `store` value i to a file.
+    fn store(&self, i: usize, path: &str) -> Out<()>;
+    /// Load with loader 0 load_full / 1 load_mem / 2 load_mmap / 3 mmap, then apply the
+    /// history `steps` (0 move, 1 box/unbox, 2 swap with a second load, 3 thread round trip,
+    /// 4 Arc share with a reader thread, 5 channel round trip), observing after every step.
+    fn load_history(&self, loader: u8, path: &str, flags: u32, steps: &[u8]) -> Out<Vec<LoadObs>>;
+}
+
+#[derive(Debug, Clone)]
+pub struct LoadObs {
+    pub val: Val,
+    pub spans: Vec<Span>,
+    /// (kind 0 none / 1 heap / 2 mmap, base, len)
+    pub region: (u8, usize, usize),
+    pub region_hash: u64,
+    /// first bytes of the region (up to 1 MiB) for content comparison
+    pub region_bytes: Vec<u8>,
+}
+
+pub fn anyhow_kind(e: &anyhow::Error) -> String {
+    if let Some(d) = e.downcast_ref::<deser::Error>() { return err_kind(d); }
+    if let Some(io) = e.downcast_ref::<std::io::Error>() { return format!("io:{:?}", io.kind()); }
+    format!("other:{}", e.to_string().chars().take(60).collect::<String>())
+}
+
+#[inline(never)]
+fn pass<X>(x: X) -> X { x }
+
+fn observe<S: EpsView>(c: &epserde::deser::MemCase<S>) -> LoadObs {
+    let mut spans = vec![];
+    (**c).spans(&mut spans);
+    let (kind, base, len) = c.__verif_backend();
+    let bytes: &[u8] = if kind == 0 { &[] } else { unsafe { core::slice::from_raw_parts(base, len) } };
+    LoadObs { val: (**c).eps_val(), spans, region: (kind, base as usize, len), region_hash: xxhash_rust::xxh3::xxh3_64(bytes), region_bytes: bytes[..bytes.len().min(1 << 20)].to_vec() }
 }
 
 pub struct Ops<T> { vals: RefCell<Vec<T>>, _p: PhantomData<T> }
@@ -141,7 +175,7 @@ impl<T> Ops<T> { pub fn new() -> Self { Ops { vals: RefCell::new(vec![]), _p: Ph
 impl<T> TypeOps for Ops<T>
 where
     T: Dom + Serialize + Deserialize + SerializeInner + DeserializeInner + TypeHash + AlignHash,
-    for<'a> DeserType<'a, T>: EpsView,
+    for<'a> DeserType<'a, T>: EpsView + Send + Sync,
 {
     fn ty(&self) -> Ty { T::ty() }
     fn type_name(&self) -> &'static str { core::any::type_name::<<T as SerializeInner>::SerType>() }
@@ -267,6 +301,59 @@ where
             let csv = guarded(|| schema.to_csv().lines().count());
             let debug = guarded(|| schema.debug(&buf).lines().count());
             Ok(SchemaOut { bytes: buf, rows, csv, debug })
+        }))
+    }
+    fn store(&self, i: usize, path: &str) -> Out<()> {
+        let vals = self.vals.borrow();
+        let v = &vals[i];
+        out3(guarded(|| v.store(path).map_err(|e| format!("{:?}", e))))
+    }
+    fn load_history(&self, loader: u8, path: &str, flags: u32, steps: &[u8]) -> Out<Vec<LoadObs>> {
+        use epserde::deser::{Flags, MemCase};
+        let fl = Flags::from_bits_truncate(flags);
+        if loader == 0 {
+            return out3(guarded(|| T::load_full(path).map(|x| vec![LoadObs { val: x.to_val(), spans: vec![], region: (0, 0, 0), region_hash: 0, region_bytes: vec![] }]).map_err(|e| anyhow_kind(&e))));
+        }
+        let load = move || -> anyhow::Result<MemCase<DeserType<'static, T>>> {
+            match loader { 1 => T::load_mem(path), 2 => T::load_mmap(path, fl), _ => T::mmap(path, fl) }
+        };
+        out3(guarded(|| -> Result<Vec<LoadObs>, String> {
+            let mut c = load().map_err(|e| anyhow_kind(&e))?;
+            let mut obs = vec![observe(&c)];
+            for st in steps {
+                match st {
+                    0 => { c = pass(c); }
+                    1 => { let b = Box::new(c); let b = pass(b); c = *b; }
+                    2 => { let mut other = load().map_err(|e| format!("second load: {}", anyhow_kind(&e)))?; core::mem::swap(&mut c, &mut other); drop(other); }
+                    3 => {
+                        let (c2, v) = std::thread::spawn(move || { let v = (*c).eps_val(); (c, v) }).join().map_err(|_| "reader thread panicked".to_string())?;
+                        c = c2;
+                        if v != obs[0].val { return Err("value read on another thread differs".into()); }
+                    }
+                    4 => {
+                        let a = std::sync::Arc::new(c);
+                        let a2 = a.clone();
+                        let h = std::thread::spawn(move || { let v = (**a2).eps_val(); drop(a2); v });
+                        let here = (**a).eps_val();
+                        let there = h.join().map_err(|_| "reader thread panicked".to_string())?;
+                        if here != there || here != obs[0].val { return Err("value read through Arc on two threads differs".into()); }
+                        c = std::sync::Arc::try_unwrap(a).map_err(|_| "Arc still shared".to_string())?;
+                    }
+                    _ => {
+                        let (tx, rx) = std::sync::mpsc::channel();
+                        let (tx2, rx2) = std::sync::mpsc::channel();
+                        let h = std::thread::spawn(move || { let c: MemCase<DeserType<'static, T>> = rx.recv().unwrap(); let v = (*c).eps_val(); tx2.send((c, v)).unwrap(); });
+                        tx.send(c).map_err(|_| "send failed".to_string())?;
+                        let (c2, v) = rx2.recv().map_err(|_| "recv failed".to_string())?;
+                        h.join().map_err(|_| "thread panicked".to_string())?;
+                        c = c2;
+                        if v != obs[0].val { return Err("value read after channel transfer differs".into()); }
+                    }
+                }
+                obs.push(observe(&c));
+            }
+            drop(c);
+            Ok(obs)
         }))
     }
 }
